@@ -158,6 +158,7 @@ func (s *Session) stop(exhausted bool) {
 type inputDecl struct {
 	name string
 	s    smtSort
+	vocab []string // enum strings: the Int input indexes this vocabulary
 }
 
 // Worker holds all per-worker and per-path symbolic state.
@@ -277,7 +278,7 @@ func (w *Worker) declare(name string, s smtSort) *term {
 		panic(engineError{"harness declares input twice on one path: " + name})
 	}
 	w.declared[name] = true
-	w.inputs = append(w.inputs, inputDecl{name, s})
+	w.inputs = append(w.inputs, inputDecl{name: name, s: s})
 	w.sol.send(fmt.Sprintf("(declare-const %s %s)", smtName(name), s))
 	return mkLeaf(smtName(name), s)
 }
@@ -548,7 +549,7 @@ func (w *Worker) model(extra *term) (map[string]interface{}, string) {
 				if e := parseSexp(vals); e != nil {
 					for k, p := range e.list {
 						if k < len(w.inputs) && len(p.list) == 2 {
-							m[w.inputs[k].name] = sexpValue(p.list[1], w.inputs[k].s)
+							m[w.inputs[k].name] = w.inputs[k].decode(sexpValue(p.list[1], w.inputs[k].s))
 						}
 					}
 				}
@@ -568,7 +569,7 @@ func (w *Worker) model(extra *term) (map[string]interface{}, string) {
 			if e != nil {
 				for k, p := range e.list {
 					if k < len(w.inputs) && len(p.list) == 2 {
-						m[w.inputs[k].name] = sexpValue(p.list[1], w.inputs[k].s)
+						m[w.inputs[k].name] = w.inputs[k].decode(sexpValue(p.list[1], w.inputs[k].s))
 					}
 				}
 			}
@@ -857,4 +858,27 @@ func keys(m map[string]bool) []string {
 	}
 	sort.Strings(out)
 	return out
+}
+
+
+// decode maps the model value of an enum-string input (an index) back to the string.
+func (d inputDecl) decode(v interface{}) interface{} {
+	if d.vocab == nil {
+		return v
+	}
+	var k int64 = -1
+	switch x := v.(type) {
+	case int64:
+		k = x
+	case int:
+		k = int64(x)
+	case float64:
+		k = int64(x)
+	case string:
+		fmt.Sscanf(x, "%d", &k)
+	}
+	if k >= 0 && int(k) < len(d.vocab) {
+		return d.vocab[k]
+	}
+	return v
 }
